@@ -20,7 +20,12 @@ RULE = ("stream http: real logins at the real daemon (config-file provider, scry
         "(every proper prefix / sampled lengths, one more character, more text, one changed character front / middle / end, other "
         "case, white space around it, nothing) on /api/v1/authorized, POST /api/v1/cas, POST /api/v1/cas/{ca}/id and POST /auth/login, "
         "on both transports, with the config-file provider primary (admin token = legacy arm; unmapped and mapped peer) and with the "
-        "admin-token provider primary; the audit actor of accepted commands. The model is the provider chain with its fall-through "
+        "admin-token provider primary; configuration FILES loaded by krill's own loader (Config::read_config + Config::process, one daemon "
+        "per file; every other configuration has its authentication fields set before Config::process runs): no [auth_roles] (built-in "
+        "roles), own roles that shadow built-in names with fewer permissions, own roles that omit built-in names which users, "
+        "[unix_users] or the default unix_users (root = admin) refer to, no [auth_users], seeded combinations; `start` observes whether "
+        "the daemon accepts the file (model: startOk), then the socket peer and every user's token are used on the sample rows and "
+        "judged by the role the CONFIGURED map has under that name (oracle identity_role_is_configured); the audit actor of accepted commands. The model is the provider chain with its fall-through "
         "and the symbolic session cache; the oracle judges observed logins by the full-strength login predicate")
 
 
@@ -42,6 +47,8 @@ def check(ctx):
         "of every user is valid hex (krill unwraps hex::decode(salt) at login: a non-hex salt panics there - a C16 matter, not modelled)",
         "a near miss of a session token (its base64 text shortened, extended, changed in one character or re-cased) is not the canonical "
         "encoding of a payload sealed under the instance key (AEAD assumption); white space around a token is removed by the header parsing",
+        "ConfigDefaults::unix_users (root = admin) is hand-modelled (the built-in role map is generated); both are exercised by configuration "
+        "files without the sections; the check runs as root so the default mapping is the peer's",
         "session expiry is not modelled: the config-file provider issues sessions without expiry and never checks it",
         "the peer of the Unix socket is the user running the check ('mapped' / 'unmapped' decided by the configuration); when the "
         "check runs as root (it does here; otherwise the case c20-unixcred is skipped with a message) the connecting thread's "
@@ -71,7 +78,12 @@ MANIFEST = {
             "actor is the authenticated id; junk_hash_never_logs_in (an entry whose stored hash is not the text of a hash admits no password); "
             "get_bearer_token_spec and near_miss_same_iff (of the neighbourhood of any credential text - prefixes, extensions, one changed "
             "character, other case, padding, nothing - exactly the members that only add white space are the same credential), "
-            "near_miss_rejected (all others authenticate nobody, both provider configurations), authenticates_iff_admin_token. The pinned tree violated login_identity (two look-ups; finding F-C20-1, fixed by "
+            "near_miss_rejected (all others authenticate nobody, both provider configurations), authenticates_iff_admin_token; the configuration "
+            "file model (ConfigModel: the role map is the [auth_roles] of the file if present, else the built-in roles, never a union; "
+            "unix_users defaults to root = admin): role_map_is_configured, start_refused_iff (the daemon refuses exactly the files that "
+            "select the config-file provider without [auth_users] or map a socket user to a role the map lacks), "
+            "identity_role_is_configured (the role of every authenticated identity is the admin-token role or roles.get(name) of the "
+            "configured map), login_role_is_configured, undefined_role_never_logs_in. The pinned tree violated login_identity (two look-ups; finding F-C20-1, fixed by "
             "2ee45739): the old function is kept as a labelled counter-model with the witness, and the corpus replays the "
             "confusing logins on the real daemon on every run.",
     "note": "Cryptography is symbolic (term equality); the correspondence uses the real ChaCha20-Poly1305/scrypt code of the daemon "
